@@ -131,7 +131,7 @@ func (st *CompatibleSet[T]) FindByString(s string) (ht Hint, v T, found bool, _ 
 }
 
 func (st *CompatibleSet[T]) FindBytType(t Type) (ht Hint, v T, found bool) {
-	switch ht, i, found, foundincache, err := st.cacheGet(t.String()); {
+	switch ht, i, found, foundincache, err := st.cacheGetByType(t.String()); {
 	case err != nil:
 		return ht, v, false
 	case foundincache:
@@ -142,7 +142,7 @@ func (st *CompatibleSet[T]) FindBytType(t Type) (ht Hint, v T, found bool) {
 }
 
 func (st *CompatibleSet[T]) FindBytTypeString(s string) (ht Hint, v T, found bool, _ error) {
-	switch i, j, cfound, foundincache, err := st.cacheGet(s); {
+	switch i, j, cfound, foundincache, err := st.cacheGetByType(s); {
 	case err != nil:
 		return ht, v, false, err
 	case foundincache:
@@ -151,7 +151,7 @@ func (st *CompatibleSet[T]) FindBytTypeString(s string) (ht Hint, v T, found boo
 
 	t := Type(s)
 	if err := t.IsValid(nil); err != nil {
-		st.cacheSet(s, err)
+		st.cacheSetByType(s, err)
 
 		return ht, v, false, err
 	}
@@ -194,7 +194,7 @@ func (st *CompatibleSet[T]) find(ht Hint) (v T, found bool) {
 func (st *CompatibleSet[T]) findBytType(t Type) (ht Hint, v T, found bool) {
 	vs, found := st.typeheads[t]
 	if !found {
-		st.cacheSet(t.String(), false)
+		st.cacheSetByType(t.String(), false)
 
 		return ht, v, false
 	}
@@ -202,17 +202,33 @@ func (st *CompatibleSet[T]) findBytType(t Type) (ht Hint, v T, found bool) {
 	ht = st.typeheadhints[t]
 	v = vs
 
-	st.cacheSet(t.String(), [2]interface{}{ht, v})
+	st.cacheSetByType(t.String(), [2]interface{}{ht, v})
 
 	return ht, v, true
 }
 
+// NOTE the answers for hint string and for type string are cached under the
+// different keys; same string can be asked as hint and as type, and the answer
+// for one is not the answer for the other.
+const (
+	compatibleSetCacheHintKeyPrefix = "h/"
+	compatibleSetCacheTypeKeyPrefix = "t/"
+)
+
 func (st *CompatibleSet[T]) cacheGet(s string) (ht Hint, v T, found, foundincache bool, err error) {
+	return st.cacheGetByKey(compatibleSetCacheHintKeyPrefix, s)
+}
+
+func (st *CompatibleSet[T]) cacheGetByType(s string) (ht Hint, v T, found, foundincache bool, err error) {
+	return st.cacheGetByKey(compatibleSetCacheTypeKeyPrefix, s)
+}
+
+func (st *CompatibleSet[T]) cacheGetByKey(prefix, s string) (ht Hint, v T, found, foundincache bool, err error) {
 	if st.cache == nil {
 		return ht, v, false, false, nil
 	}
 
-	switch i, cfound := st.cache.Get(s); {
+	switch i, cfound := st.cache.Get(prefix + s); {
 	case !cfound:
 		return ht, v, false, false, nil
 	default:
@@ -235,9 +251,17 @@ func (st *CompatibleSet[T]) cacheGet(s string) (ht Hint, v T, found, foundincach
 }
 
 func (st *CompatibleSet[T]) cacheSet(s string, v interface{}) {
+	st.cacheSetByKey(compatibleSetCacheHintKeyPrefix, s, v)
+}
+
+func (st *CompatibleSet[T]) cacheSetByType(s string, v interface{}) {
+	st.cacheSetByKey(compatibleSetCacheTypeKeyPrefix, s, v)
+}
+
+func (st *CompatibleSet[T]) cacheSetByKey(prefix, s string, v interface{}) {
 	if st.cache == nil {
 		return
 	}
 
-	st.cache.Set(s, v, 0)
+	st.cache.Set(prefix+s, v, 0)
 }
